@@ -18,6 +18,10 @@ package main
 //                       parameter; the caller's containers and the document never change
 //   long-history        10 000 (quick) / 200 000 (thorough) records through rules that call and match;
 //                       oracle: class ok, depth 0, END summary as simulated in Go
+//   argument-snapshots  argument lists in which a LATER argument has a side effect on the variable, member or
+//                       element an EARLIER argument reads; user functions: exact oracle (each argument is the value
+//                       it had when it was evaluated, left to right); printf / methods / array and object literals /
+//                       print lists: model comparison only (the property speaks about calls of user functions)
 
 import (
 	"fmt"
@@ -280,21 +284,30 @@ func c08ValueRef(r *rand.Rand, emit func(Case)) {
 		pick(r, cands)()
 	}
 	set := ""
+	ref := "v" // the argument expression: a variable, or a member / element holding the value
 	if st.lit != "" {
 		set = "v = " + st.lit + "\n  "
+		switch r.Intn(6) {
+		case 0:
+			set, ref = "h = {v: "+st.lit+"}\n  ", "h.v"
+		case 1:
+			set, ref = "h = [0, "+st.lit+"]\n  ", "h[1]"
+		case 2:
+			set, ref = "h = {o: {v: "+st.lit+"}}\n  ", "h.o[\"v\"]"
+		}
 	}
 	two := chance(r, 0.25)
 	var prog, want string
 	if two {
 		// the same variable passed twice: both parameters see a shared container
-		prog = "function f(p, p2) {\n  " + strings.Join(ops, "\n  ") + "\n  print \"in\", p, p2\n}\nBEGIN {\n  " + set + "f(v, v)\n  print \"out\", v, p is unknown\n}\n"
+		prog = "function f(p, p2) {\n  " + strings.Join(ops, "\n  ") + "\n  print \"in\", p, p2\n}\nBEGIN {\n  " + set + "f(" + ref + ", " + ref + ")\n  print \"out\", " + ref + ", p is unknown\n}\n"
 		want = "in " + c08Pretty(p, false) + " " + c08Pretty(v, false) + "\nout " + c08Pretty(v, false) + " true\n"
 	} else {
-		prog = "function f(p) {\n  " + strings.Join(ops, "\n  ") + "\n  print \"in\", p\n  return p\n}\nBEGIN {\n  " + set + "w = f(v)\n  print \"out\", v, w, p is unknown\n}\n"
+		prog = "function f(p) {\n  " + strings.Join(ops, "\n  ") + "\n  print \"in\", p\n  return p\n}\nBEGIN {\n  " + set + "w = f(" + ref + ")\n  print \"out\", " + ref + ", w, p is unknown\n}\n"
 		want = "in " + c08Pretty(p, false) + "\nout " + c08Pretty(v, false) + " " + c08Pretty(p, false) + " true\n"
 	}
 	emit(Case{Req: RunReq(prog, nil, nil, false), Fields: c08Fields,
-		Meta: metaProg(prog, "start", st.lit), Oracle: c08OutOracle(want, "ok"),
+		Meta: metaProg(prog, "start", st.lit, "argument", ref), Oracle: c08OutOracle(want, "ok"),
 		NonTrivial: func(i Resp) bool { return i["class"] == "ok" }})
 }
 
@@ -728,6 +741,273 @@ func c08Long(r *rand.Rand, n int, variant int, implOnly bool, emit func(Case)) {
 		},
 		ImplOnly:   implOnly,
 		NonTrivial: func(i Resp) bool { return i["class"] == wantClass }})
+}
+
+// ---------------------------------------------------------------- argument-snapshots
+//
+// Arguments are evaluated left to right and each one is COPIED when it is evaluated
+// (src/evaluator.go evalExprList(..., true)): scalars are snapshots, containers are
+// shared. So what a later argument does to the caller's variable cannot change an
+// earlier argument — except through a container both refer to.
+
+type c08Snap struct {
+	i float64
+	s string
+	b bool
+	x interface{} // unset at the start
+	a *c08Arr     // numbers
+	g *c08Obj     // {n: number}
+}
+
+type c08SArg struct {
+	text string
+	on   string // the variable it reads / changes: i s b x a g
+	eff  bool   // has a side effect
+	ok   func(st *c08Snap) bool
+	eval func(st *c08Snap) interface{}
+}
+
+func c08SnapArgs() []c08SArg {
+	num := func(v interface{}) float64 { return c07Num(v) }
+	gn := func(st *c08Snap) float64 { return num(st.g.m["n"]) }
+	a0num := func(st *c08Snap) bool {
+		if len(st.a.items) == 0 {
+			return false
+		}
+		_, ok := st.a.items[0].(float64)
+		return ok
+	}
+	elem := func(k int) func(st *c08Snap) interface{} {
+		return func(st *c08Snap) interface{} {
+			if k < len(st.a.items) {
+				return st.a.items[k]
+			}
+			return nil
+		}
+	}
+	return []c08SArg{
+		// readers
+		{text: "i", on: "i", eval: func(st *c08Snap) interface{} { return st.i }},
+		{text: "(i)", on: "i", eval: func(st *c08Snap) interface{} { return st.i }},
+		{text: "i + 0", on: "i", eval: func(st *c08Snap) interface{} { return st.i }},
+		{text: "s", on: "s", eval: func(st *c08Snap) interface{} { return st.s }},
+		{text: "(s)", on: "s", eval: func(st *c08Snap) interface{} { return st.s }},
+		{text: "s + '.'", on: "s", eval: func(st *c08Snap) interface{} { return st.s + "." }},
+		{text: "b", on: "b", eval: func(st *c08Snap) interface{} { return st.b }},
+		{text: "x", on: "x", eval: func(st *c08Snap) interface{} { return st.x }},
+		{text: "g.n", on: "g", eval: func(st *c08Snap) interface{} { return gn(st) }},
+		{text: "g[\"n\"]", on: "g", eval: func(st *c08Snap) interface{} { return gn(st) }},
+		{text: "g", on: "g", eval: func(st *c08Snap) interface{} { return st.g }},
+		{text: "a[0]", on: "a", eval: elem(0)},
+		{text: "a[1]", on: "a", eval: elem(1)},
+		{text: "a.length()", on: "a", eval: func(st *c08Snap) interface{} { return float64(len(st.a.items)) }},
+		{text: "a", on: "a", eval: func(st *c08Snap) interface{} { return st.a }},
+		// side effects
+		{text: "i++", on: "i", eff: true, eval: func(st *c08Snap) interface{} { st.i++; return st.i - 1 }},
+		{text: "++i", on: "i", eff: true, eval: func(st *c08Snap) interface{} { st.i++; return st.i }},
+		{text: "i--", on: "i", eff: true, eval: func(st *c08Snap) interface{} { st.i--; return st.i + 1 }},
+		{text: "i = 7", on: "i", eff: true, eval: func(st *c08Snap) interface{} { st.i = 7; return st.i }},
+		{text: "(i = 70)", on: "i", eff: true, eval: func(st *c08Snap) interface{} { st.i = 70; return st.i }},
+		{text: "i += 5", on: "i", eff: true, eval: func(st *c08Snap) interface{} { st.i += 5; return st.i }},
+		{text: "seti(9)", on: "i", eff: true, eval: func(st *c08Snap) interface{} { st.i = 9; return st.i }},
+		{text: "id(i++)", on: "i", eff: true, eval: func(st *c08Snap) interface{} { st.i++; return st.i - 1 }},
+		{text: "s = \"new\"", on: "s", eff: true, eval: func(st *c08Snap) interface{} { st.s = "new"; return st.s }},
+		{text: "s = s + \"!\"", on: "s", eff: true, eval: func(st *c08Snap) interface{} { st.s += "!"; return st.s }},
+		{text: "sets(\"z\")", on: "s", eff: true, eval: func(st *c08Snap) interface{} { st.s = "z"; return st.s }},
+		{text: "b = !b", on: "b", eff: true, eval: func(st *c08Snap) interface{} { st.b = !st.b; return st.b }},
+		{text: "x = 3", on: "x", eff: true, eval: func(st *c08Snap) interface{} { st.x = float64(3); return st.x }},
+		{text: "(x = [1])", on: "x", eff: true, eval: func(st *c08Snap) interface{} {
+			st.x = &c08Arr{[]interface{}{float64(1)}}
+			return st.x
+		}},
+		{text: "x = \"X\"", on: "x", eff: true, eval: func(st *c08Snap) interface{} { st.x = "X"; return st.x }},
+		{text: "bump()", on: "g", eff: true, eval: func(st *c08Snap) interface{} { st.g.m["n"] = gn(st) + 10; return gn(st) }},
+		{text: "g.n++", on: "g", eff: true, eval: func(st *c08Snap) interface{} { st.g.m["n"] = gn(st) + 1; return gn(st) - 1 }},
+		{text: "g.n = 0", on: "g", eff: true, eval: func(st *c08Snap) interface{} { st.g.m["n"] = float64(0); return float64(0) }},
+		{text: "g.n += 2", on: "g", eff: true, eval: func(st *c08Snap) interface{} { st.g.m["n"] = gn(st) + 2; return gn(st) }},
+		{text: "g = {n: 5}", on: "g", eff: true, eval: func(st *c08Snap) interface{} {
+			st.g = &c08Obj{m: map[string]interface{}{"n": float64(5)}}
+			return st.g
+		}},
+		{text: "a.pop()", on: "a", eff: true, eval: func(st *c08Snap) interface{} {
+			if len(st.a.items) == 0 {
+				return nil
+			}
+			v := st.a.items[len(st.a.items)-1]
+			st.a.items = st.a.items[:len(st.a.items)-1]
+			return v
+		}},
+		{text: "a.popfirst()", on: "a", eff: true, eval: func(st *c08Snap) interface{} {
+			if len(st.a.items) == 0 {
+				return nil
+			}
+			v := st.a.items[0]
+			st.a.items = st.a.items[1:]
+			return v
+		}},
+		{text: "a[0] = 5", on: "a", eff: true, ok: func(st *c08Snap) bool { return len(st.a.items) > 0 }, eval: func(st *c08Snap) interface{} {
+			st.a.items[0] = float64(5)
+			return float64(5)
+		}},
+		{text: "a[0]++", on: "a", eff: true, ok: a0num, eval: func(st *c08Snap) interface{} {
+			v := num(st.a.items[0])
+			st.a.items[0] = v + 1
+			return v
+		}},
+		{text: "a.push(99)", on: "a", eff: true, eval: func(st *c08Snap) interface{} {
+			st.a.items = append(st.a.items, float64(99))
+			return st.a
+		}},
+		{text: "a = [7]", on: "a", eff: true, eval: func(st *c08Snap) interface{} {
+			st.a = &c08Arr{[]interface{}{float64(7)}}
+			return st.a
+		}},
+	}
+}
+
+const c08SnapFuncs = "function id(v) { return v }\nfunction seti(v) { i = v\n return v }\nfunction sets(v) { s = v\n return v }\nfunction bump() { g.n = g.n + 10\n return g.n }\n"
+
+// c08SnapList draws 2-5 arguments; at least one reader is followed by a side effect on the same variable.
+func c08SnapList(r *rand.Rand, st *c08Snap) (texts []string, vals []interface{}) {
+	pool := c08SnapArgs()
+	n := 2 + r.Intn(4)
+	on := pick(r, []string{"i", "i", "s", "g", "g", "a", "a", "x", "b"})
+	rd, ef := r.Intn(n-1), 0
+	ef = rd + 1 + r.Intn(n-1-rd)
+	for k := 0; k < n; k++ {
+		var c c08SArg
+		for tries := 0; ; tries++ {
+			c = pick(r, pool)
+			if c.ok != nil && !c.ok(st) {
+				continue
+			}
+			if tries < 200 {
+				if k == rd && (c.eff || c.on != on) {
+					continue
+				}
+				if k == ef && (!c.eff || c.on != on) {
+					continue
+				}
+			}
+			break
+		}
+		texts = append(texts, c.text)
+		vals = append(vals, c.eval(st))
+	}
+	return
+}
+
+func c08SnapCase(r *rand.Rand, emit func(Case)) {
+	st := &c08Snap{i: 1, s: "old", b: true, x: c07Unset{}, a: &c08Arr{[]interface{}{float64(10), float64(20), float64(30)}}, g: &c08Obj{m: map[string]interface{}{"n": float64(1)}}}
+	init := "i = 1; s = \"old\"; b = true; a = [10, 20, 30]; g = {n: 1}"
+	after := "print \"after\", i, s, b, x, a, g"
+	texts, vals := c08SnapList(r, st)
+	list := strings.Join(texts, ", ")
+	afterLine := func() string {
+		return "after " + c08Pretty(st.i, false) + " " + st.s + " " + fmt.Sprint(st.b) + " " + c08Pretty(st.x, false) + " " + c08Pretty(st.a, false) + " " + c08Pretty(st.g, false) + "\n"
+	}
+	ctx := r.Intn(100)
+	var stmt, want, context string
+	exact := true
+	switch {
+	case ctx < 60:
+		// a user function: parameters by position, surplus arguments evaluated and dropped, missing ones null
+		arity := pick(r, []int{len(texts), len(texts), len(texts), len(texts) - 1, len(texts) + 1})
+		params := make([]string, arity)
+		line := "F"
+		for k := range params {
+			params[k] = fmt.Sprintf("p%d", k+1)
+			if k < len(vals) {
+				line += " " + c08Pretty(vals[k], false)
+			} else {
+				line += " null"
+			}
+		}
+		fn := "function f(" + strings.Join(params, ", ") + ") { print " + strings.Join(append([]string{`"F"`}, params...), ", ")
+		ret := ""
+		switch r.Intn(4) {
+		case 0:
+			context = "user-call statement"
+			stmt = "f(" + list + ")"
+		case 1:
+			context = "user-call assigned"
+			fn += "\n return p1"
+			stmt = "r = f(" + list + ")\n print \"r\", r"
+			ret = "r " + c08Pretty(vals[0], false) + "\n"
+			if arity == 0 {
+				ret = "r <unknown>\n"
+			}
+		case 2:
+			context = "user-call in print"
+			fn += "\n return \"v\""
+			stmt = "print \"got\", f(" + list + ")"
+			ret = "got v\n"
+		default:
+			context = "user-call nested"
+			fn += "\n return p1"
+			stmt = "print \"got\", id(f(" + list + "))"
+			ret = "got " + c08Pretty(vals[0], false) + "\n"
+			if arity == 0 {
+				ret = "got <unknown>\n"
+			}
+		}
+		fn += " }\n"
+		want = line + "\n" + ret
+		stmt = "\x00" + fn + "\x00" + stmt
+	case ctx < 70:
+		context = "printf"
+		exact = false
+		stmt = "printf(\"" + strings.TrimSuffix(strings.Repeat("%v|", len(texts)), "|") + "\\n\", " + list + ")"
+	case ctx < 78:
+		context = "array literal"
+		exact = false
+		stmt = "r = [" + list + "]\n print r"
+	case ctx < 86:
+		context = "object literal"
+		exact = false
+		parts := make([]string, len(texts))
+		for k, t := range texts {
+			parts[k] = fmt.Sprintf("k%d: %s", k+1, t)
+		}
+		stmt = "r = {" + strings.Join(parts, ", ") + "}\n print r"
+	case ctx < 94:
+		context = "print list"
+		exact = false
+		stmt = "print " + list
+	default:
+		context = "method receiver and argument"
+		exact = false
+		stmt = pick(r, []string{"r = a.push(a.pop())\n print r", "r = a.push(a.length())\n print r", "print a.contains(a.popfirst())", "print s.split(s = \",\")", "s = \"a,b\"; print s.split((s = \"a\"))",
+			"print a.push(a = [1])", "print g.pluck(g = {n: 2, m: 3})", "print i.floor(i = 2.5)", "print s.upper(s = \"low\")", "r = []; r.push(i); r.push(i++); r.push(i); print r"})
+	}
+	fn := ""
+	if strings.HasPrefix(stmt, "\x00") {
+		parts := strings.SplitN(stmt[1:], "\x00", 2)
+		fn, stmt = parts[0], parts[1]
+	}
+	var prog string
+	wrap := r.Intn(4)
+	switch wrap {
+	case 0: // the variables are locals of a function (the helpers reach them by dynamic scoping)
+		prog = c08SnapFuncs + fn + "function run() {\n " + init + "\n " + stmt + "\n " + after + "\n}\nBEGIN { run() }\n"
+	case 1: // in a rule body over one record
+		prog = c08SnapFuncs + fn + "{\n " + init + "\n " + stmt + "\n " + after + "\n}\n"
+	default:
+		prog = c08SnapFuncs + fn + "BEGIN {\n " + init + "\n " + stmt + "\n " + after + "\n}\n"
+	}
+	var files []File
+	if wrap == 1 {
+		files = []File{{Name: "in.json", Data: []byte("[0]")}}
+	}
+	c := Case{Req: RunReq(prog, nil, files, false), Fields: c08Fields,
+		Meta: metaProg(prog, "context", context, "arguments", list, "row", context)}
+	if exact {
+		want += afterLine()
+		c.Meta["expected"] = want
+		c.Oracle = c08OutOracle(want, "ok")
+		c.NonTrivial = func(i Resp) bool { return i["class"] == "ok" }
+	}
+	emit(c)
 }
 
 // ---------------------------------------------------------------- match-exit-paths
@@ -1204,7 +1484,7 @@ func init() {
 	})
 	register(Family{
 		Name: "value-vs-reference", Prop: "C08",
-		Rule: "callee applies 1-3 random operations to its parameter (assign, ++, rebind to a new container, push/pop, element and member writes, nested container writes, same variable passed twice); oracle: exact output from a small sharing simulation (scalars by value, containers shared until rebound, parameter invisible after the call)",
+		Rule: "callee applies 1-3 random operations to its parameter (assign, ++, rebind to a new container, push/pop, element and member writes, nested container writes, same variable passed twice); the argument is a variable or (half of the non-unset starts) a member / element / nested member holding the value; oracle: exact output from a small sharing simulation (scalars by value, containers shared until rebound, parameter invisible after the call)",
 		Gen: func(r *rand.Rand, tier string, emit func(Case)) {
 			for i, n := 0, tierN(tier, 1500, 20000); i < n; i++ {
 				c08ValueRef(r, emit)
@@ -1235,6 +1515,15 @@ func init() {
 		Gen: func(r *rand.Rand, tier string, emit func(Case)) {
 			for i, n := 0, tierN(tier, 1200, 12000); i < n; i++ {
 				c08NextExit(r, emit)
+			}
+		},
+	})
+	register(Family{
+		Name: "argument-snapshots", Prop: "C08",
+		Rule: "argument lists of 2-5 expressions over the caller's variables i, s, b, x (unset), a (array), g (object) in which a later argument has a side effect (i++, ++i, i = 7, i += 5, a global assigned inside a called function, s = ..., g.n++, bump(), g = {..}, a.pop(), a.popfirst(), a[0] = 5, a[0]++, a.push(99), a = [7], x = 3, (x = [1])) on what an earlier argument reads (i, (i), s, g.n, g[\"n\"], a[0], a[1], a.length(), x, b, and the containers a, g themselves); the variables are globals, locals of a function, or set in a rule body; 60 %: a user function of matching, smaller or larger arity, as a statement, assigned, in a print list, nested in another call — oracle (implementation only): every parameter prints the value its argument had WHEN IT WAS EVALUATED (scalars are snapshots, containers are shared and show later changes, a rebound variable leaves the earlier argument on the old container), the variables afterwards show every side effect once, depth 0; 40 %: the same lists as printf arguments, array literal items, object literal values, print-list items, and method receiver/argument pairs — compared with the model only (the property speaks about calls of user functions)",
+		Gen: func(r *rand.Rand, tier string, emit func(Case)) {
+			for i, n := 0, tierN(tier, 3000, 40000); i < n; i++ {
+				c08SnapCase(r, emit)
 			}
 		},
 	})
